@@ -130,11 +130,12 @@ class Extraction:
 
 class Ob:
     """One obligation: something a rule examined and either discharged or not."""
-    __slots__ = ('rule', 'key', 'status', 'detail', 'loc', 'why', 'nontrivial')
+    __slots__ = ('rule', 'key', 'status', 'detail', 'loc', 'why', 'nontrivial', 'nf')
 
-    def __init__(self, rule, key, ok, detail='', loc='', why='', nontrivial=True):
+    def __init__(self, rule, key, ok, detail='', loc='', why='', nontrivial=True, nf=None):
         self.rule = rule
         self.key = key
+        self.nf = nf             # name-free form of the key (no local-variable names, no temporary numbers); tables match on it
         self.status = 'ok' if ok else 'violation'
         self.detail = detail
         self.loc = loc
@@ -142,8 +143,11 @@ class Ob:
         self.nontrivial = nontrivial
 
     def to_json(self):
-        return {'rule': self.rule, 'key': self.key, 'status': self.status, 'loc': self.loc,
-                'detail': self.detail, 'why': self.why}
+        d = {'rule': self.rule, 'key': self.key, 'status': self.status, 'loc': self.loc,
+             'detail': self.detail, 'why': self.why}
+        if self.nf is not None:
+            d['nf'] = self.nf
+        return d
 
 
 def load_table(name, default):
@@ -163,17 +167,29 @@ class Tables:
         self.known = kf.get('findings', [])
         self.fixed = kf.get('fixed', [])
         self.expect = load_table('tables/expectations.json', {})
+        # entries are matched by their name-free key `nf` when they have one (renaming a local or adding a `let` must not
+        # detach a reviewed reason from its site); `key` is the readable form and the fallback for rules without an nf form
         self._rev = {}
+        self._rev_nf = {}
         for e in self.reviewed:
             self._rev[(e['rule'], e['key'])] = e
+            if e.get('nf'):
+                self._rev_nf[(e['rule'], e['nf'])] = e
         self._known = {}
+        self._known_nf = {}
         for e in self.known:
             self._known[(e['rule'], e['key'])] = e
+            if e.get('nf'):
+                self._known_nf[(e['rule'], e['nf'])] = e
 
-    def reviewed_entry(self, rule, key):
+    def reviewed_entry(self, rule, key, nf=None):
+        if nf is not None:
+            return self._rev_nf.get((rule, nf))
         return self._rev.get((rule, key))
 
-    def known_entry(self, rule, key):
+    def known_entry(self, rule, key, nf=None):
+        if nf is not None:
+            return self._known_nf.get((rule, nf))
         return self._known.get((rule, key))
 
 
@@ -197,13 +213,13 @@ class Report:
     def add(self, ob):
         """Apply reviewed / known tables by exact key, then record."""
         if ob.status == 'violation':
-            r = self.tables.reviewed_entry(ob.rule, ob.key)
+            r = self.tables.reviewed_entry(ob.rule, ob.key, ob.nf)
             if r is not None:
                 ob.status = 'reviewed'
                 ob.why = r.get('reason', '')
                 self.used_reviewed.add((ob.rule, ob.key))
             else:
-                k = self.tables.known_entry(ob.rule, ob.key)
+                k = self.tables.known_entry(ob.rule, ob.key, ob.nf)
                 if k is not None and (k.get('property') in (None, self.prop) or self.prop in k.get('properties', [])):
                     ob.status = 'known'
                     ob.why = k.get('what', '')
@@ -220,8 +236,8 @@ class Report:
     def ok(self, rule, key, detail='', loc='', why='', nontrivial=True):
         return self.add(Ob(rule, key, True, detail, loc, why, nontrivial))
 
-    def bad(self, rule, key, detail='', loc=''):
-        return self.add(Ob(rule, key, False, detail, loc))
+    def bad(self, rule, key, detail='', loc='', nf=None):
+        return self.add(Ob(rule, key, False, detail, loc, nf=nf))
 
     def check(self, rule, key, cond, detail='', loc='', why=''):
         return self.add(Ob(rule, key, bool(cond), detail, loc, why if cond else ''))
@@ -379,8 +395,8 @@ class VariantReport:
     def ok(self, rule, key, detail='', loc='', why='', nontrivial=True):
         return self._fwd(Ob(rule, key, True, detail, loc, why, nontrivial))
 
-    def bad(self, rule, key, detail='', loc=''):
-        return self._fwd(Ob(rule, key, False, detail, loc))
+    def bad(self, rule, key, detail='', loc='', nf=None):
+        return self._fwd(Ob(rule, key, False, detail, loc, nf=nf))
 
     def check(self, rule, key, cond, detail='', loc='', why=''):
         return self._fwd(Ob(rule, key, bool(cond), detail, loc, why if cond else ''))
